@@ -151,7 +151,8 @@ extern "C" void harness_c06_api()
     verif_assume(!((ka == K_RAT || ka == K_CPLX) && (kb == K_RAT || kb == K_CPLX)));
     RCP<const Number> a = operand(ka, "a"), b = operand(kb, "b");
     bool k1 = (ka == K_INF && kb == K_NAN) || (ka == K_NAN && kb == K_INF) ? verif_known("C06/infty-op-nan", true) : false;
-    bool fz = (finite_float(*a) && a->is_zero() && is_exact(*b)) || (finite_float(*b) && b->is_zero() && is_exact(*a));
+    // a floating zero operand (whatever the partner is), or a floating zero sum
+    bool fz = (finite_float(*a) && a->is_zero()) || (finite_float(*b) && b->is_zero());
     if (!fz && ((finite_float(*a) && is_finite_num(*b)) || (finite_float(*b) && is_finite_num(*a)))) {
         // the Number-level sum is a floating zero (e.g. -1 + 1.0): same defect, the zero coefficient is dropped
         RCP<const Number> ns = a->add(*b);
